@@ -154,6 +154,7 @@ def run(sc, choices=None):
             cur["ctl"][-1] += 1
     if sc.get("prior"):
         cfg["prior"] = dict(sc["prior"])  # the object was used before: an earlier connection was lost mid-frame / mid-message
+    cfg["no_multithread"] = bool(sc.get("no_multithread"))
     out = run_recv(int(sc.get("seed", 1)), stream, cfg, res)
     ctx = f"{api}/{'per_fragment' if fire else 'reassembled'}"
     check_model(res, out, frames, api, fire, skip, "eof", ctx)
@@ -185,6 +186,8 @@ def gen(rng):
     pr = _gen_prior(rng)
     if pr:
         sc["prior"] = pr
+    if rng.random() < 0.1:
+        sc["no_multithread"] = True  # WebSocket(enable_multithread=False): the no-op lock stand-in
     return sc
 
 
